@@ -84,7 +84,11 @@ def main():
                                    env=dict(env, PYTHONPATH=root), timeout=5400)
                     info['tests_with_patch'] = outt.strip().split('\n')[-1][:80]
             t0 = time.time()
+            evp = os.path.join(VERIF, 'evidence', prop + '.json')
+            ev_saved = open(evp).read() if os.path.exists(evp) else None
             rc, out = sh(['./vcheck', prop, tier], cwd=VERIF, env=env, timeout=5400)
+            if ev_saved is not None:       # evidence files must come from runs on the unchanged tree
+                open(evp, 'w').write(ev_saved)
             dt = time.time() - t0
             viol = [l for l in out.split('\n') if l.startswith('VIOLATION')]
             verdict = 'CAUGHT' if rc == 1 and viol else ('missed' if rc == 0 else 'error rc=%d' % rc)
@@ -111,7 +115,8 @@ def main():
             else:
                 sh(['git', '-C', '/repo', 'worktree', 'remove', '--force', root])
                 sh('git -C /repo worktree prune')
-    # after runs against a private copy the Generated/*.lean files may reflect the mutated source: regenerate from /repo
+    # after runs against a mutated source the Generated/*.lean files reflect it: restore the committed baselines
+    sh(['git', '-C', VERIF, 'checkout', '--', 'lean/Lcapy/Generated'])
     with open(os.path.join(SEEDED, 'RESULTS.md'), 'a') as f:
         f.write('\n### run %s tier=%s mode=%s\n\n| seeded change | property | verdict | how | s |\n|---|---|---|---|---|\n' %
                 (time.strftime('%Y-%m-%d %H:%M'), tier, 'inplace' if inplace else 'private-copy'))
